@@ -34,12 +34,25 @@ func main() {
 	replay := flag.String("replay", "", "replay file: re-run the rule of that violation and print its obligations")
 	list := flag.Bool("list", false, "list properties and rules")
 	manifest := flag.Bool("manifest", false, "print MANIFEST.json for the rules that are built")
+	writeBaseline := flag.Bool("write-baseline", false, "print the function inventory of -repo (checker/baseline_funcs.txt is this list for the pinned tree)")
 	noEvidence := flag.Bool("no-evidence", false, "do not write evidence (used by the self-test on scratch copies)")
 	verbose := flag.Bool("v", false, "print every obligation")
 	flag.Parse()
 
 	if *manifest {
 		printManifest()
+		return
+	}
+	if *writeBaseline {
+		prog, err := core.Load(*repo, core.LoadOptions{})
+		if err != nil {
+			fmt.Fprintln(os.Stderr, err)
+			os.Exit(2)
+		}
+		fmt.Println("# functions of the pinned tree; functions outside this inventory are inlined into their callers before analysis")
+		for _, n := range prog.FuncInventory() {
+			fmt.Println(n)
+		}
 		return
 	}
 	if *list {
@@ -95,6 +108,14 @@ func main() {
 		configs = append(configs, core.LoadOptions{GOARCH: "386"}, core.LoadOptions{Tags: "verif"})
 	}
 
+	baseline, berr := core.LoadBaseline(filepath.Join(*verifDir, "checker", "baseline_funcs.txt"))
+	if berr != nil {
+		fmt.Fprintf(os.Stderr, "warning: baseline_funcs.txt: %v (helper inlining disabled)\n", berr)
+		baseline = nil
+	}
+	for i := range configs {
+		configs[i].Baseline = baseline
+	}
 	known, kerr := core.LoadKnown(filepath.Join(*verifDir, "known_findings.json"))
 	if kerr != nil {
 		fmt.Fprintf(os.Stderr, "warning: known_findings.json: %v\n", kerr)
@@ -115,6 +136,9 @@ func main() {
 			continue
 		}
 		configsOK = append(configsOK, prog.Config)
+		if ci == 0 && len(prog.InlinedHelpers) > 0 {
+			fmt.Printf("  note: %d function(s) outside the baseline inventory were inlined into their callers before analysis: %s\n", len(prog.InlinedHelpers), strings.Join(prog.InlinedHelpers, ", "))
+		}
 		if ci == 0 {
 			stats = prog.Stats
 		}
